@@ -20,9 +20,10 @@
      dedicated theorems.  Marker positions are the even ones.
    - that a decoding failure reaches the exception handler once, causes no
      adapter call and no reply, and that service continues, is the server-level
-     part of the property: the model of it is Dispatch (Props/C10.v, c10_reject
-     shows the shape) and it is exercised on the real servers by the
-     correspondence / oracle run of this check. *)
+     part of the property: see the second half of this file (Model/Classify.v
+     maps the bytes of a line to the class the connection-level model
+     Model/Shell.v dispatches on; Proofs/ClassifyProofs.v, Proofs/ShellReject.v);
+     it is exercised on the real servers by the pipelined part of this check. *)
 From Coq Require Import String List Ascii NArith ZArith Bool.
 From LS Require Import Model.Bytes Model.Tags Gen.Consts Model.Codec Model.Readers Model.AriSpec
   Proofs.ReadersRoundtrip Proofs.ReadersReject.
@@ -107,3 +108,58 @@ Print Assumptions c09_non_integer_tables.
 Print Assumptions c09_unknown_mode.
 Print Assumptions c09_unknown_platform.
 Print Assumptions c09_example.
+
+(* ------------------------------------------------------------------------------------------
+   Server level.  [classify k line] (Model/Classify.v) is on_received_request /
+   _handle_received_request / _handle_request up to the point where the connection state
+   decides: garbage, close, init, or request (well-formed?, method known to this kind of
+   server?).  [settle s lines] (Model/Shell.v) is what the reader does with the classified lines
+   of one chunk; vocabulary as in Props/C10.v. *)
+From LS Require Import Model.AriReply Model.Init Model.Classify Model.Shell Model.ShellSpec
+                       Proofs.ClassifyProofs Proofs.ShellStart Proofs.ShellReject.
+
+(* a request of a known method whose reader fails is classified "known, not well-formed" ... *)
+Theorem c09_malformed_class_meta : forall line p m msg,
+  parse_request line = Some p -> MetaHandlers.post_init_meta m = true -> p_method p = meth_name m ->
+  read_request m (p_data p) = PErr msg ->
+  classify KMeta line = CReq (p_id p) false true.
+Proof. exact classify_malformed_meta. Qed.
+
+Theorem c09_malformed_class_data : forall line p m msg,
+  parse_request line = Some p -> (m = MSUB \/ m = MUSB) -> p_method p = meth_name m ->
+  read_request m (p_data p) = PErr msg ->
+  classify KData line = CReq (p_id p) false true.
+Proof. exact classify_malformed_data. Qed.
+
+(* ... whereas a well-formed encoded one is "known, well-formed" with its own id (C06 composed) *)
+Theorem c09_wellformed_class : forall id m q term,
+  wf_id id = true -> MetaHandlers.post_init_meta m = true -> shape_ok m q = true -> ints_ok q ->
+  forallb is_space term = true ->
+  classify KMeta (encode_line id m q term) = CReq id true true.
+Proof. exact classify_encoded_meta. Qed.
+
+(* such a line, read after initialization: pool queue, job counter, outbound queue, workers, init / close /
+   stop flags unchanged (no adapter call, no reply); exactly one notification of the exception handler
+   (or the default handling when none is installed) *)
+Theorem c09_rejected : forall s rid,
+  sh_init_expected s = false ->
+  let s' := settle s [LcReq rid false true] in
+  quiet_fields s s' /\
+  (match sh_handler s with
+   | HNone => sh_hist s' = sh_hist s ++ [EHand ThReader] /\ sh_rpc s' = (if is_data s then RFalPut else (if sh_stop s then RDead else RRecv)) \/
+              sh_hist s' = sh_hist s ++ [EHand ThReader; EReaderEnd]
+   | HRet _ _ => sh_hist s' = sh_hist s /\ sh_rpc s' = RHandY
+   end).
+Proof. exact malformed_request_rejected. Qed.
+
+(* service continues: the lines after it in the same chunk are dispatched as if it had not been there *)
+Theorem c09_service_continues : forall s rid rest,
+  sh_init_expected s = false -> is_data s = false -> sh_handler s = HNone ->
+  settle s (LcReq rid false true :: rest) = settle (slog s [EHand ThReader]) rest.
+Proof. exact malformed_then_rest_meta. Qed.
+
+Print Assumptions c09_malformed_class_meta.
+Print Assumptions c09_malformed_class_data.
+Print Assumptions c09_wellformed_class.
+Print Assumptions c09_rejected.
+Print Assumptions c09_service_continues.
